@@ -276,55 +276,58 @@ class Parser:
         t2 = self._assert_and_cunsume(TokenType.BRACKET_RIGHT)
         node.tokens.append(t2)
 
-        t3 = self._assert_and_cunsume(TokenType.BRACKET_LEFT)
-        node.tokens.append(t3)
-
         self._parse_subtree(node)
         root.add_child(node)
 
     def _parse_subtree(self, root: ASTNode) -> None:
-        flag = True  # flag to check if the brachet_left can be consumed
+        """Parse a branch: nodes, colors and comments, optionally ended
+        by a split `( alternative | alternative ... )`.
+
+        Stops in front of the `)` or `|` that ends the branch and leaves
+        it to the caller, so every bracket is consumed exactly once.
+        """
         current = root
         while (token := self.next_token) is not None:
             match token.type:
                 case TokenType.BRACKET_LEFT:
                     self._read_token()
-                    if flag:
-                        flag = False
-                    else:
-                        self._parse_subtree(current)
+                    current.tokens.append(token)
+                    if (next_token := self.next_token) is None:
+                        break
 
-                case TokenType.BRACKET_RIGHT:
-                    break
+                    match next_token.type:
+                        case TokenType.FLOAT:
+                            current = self._parse_node(current)
 
-                case TokenType.FLOAT:
-                    current = self._parse_node(current)
-                    flag = True
+                        case TokenType.LITERAL:
+                            if str.upper(next_token.value) != "COLOR":
+                                raise LiteralTokenError(next_token, "COLOR")
 
-                case TokenType.LITERAL:
-                    match str.upper(token.value):
-                        case "COLOR":
                             self._parse_color(current)
-                        case _:
-                            raise LiteralTokenError(token, "COLOR")
 
-                    flag = True
+                        case _:  # not a node or a color, it opens a split
+                            self._parse_split(current)
 
-                case TokenType.OR:
-                    current = root
-                    self._read_token()
-                    flag = True
+                case TokenType.BRACKET_RIGHT | TokenType.OR:
+                    return
 
                 case TokenType.COMMENT:
                     self._parse_comment(current)
 
                 case _:
-                    excepted = (
-                        "BRACKET_LEFT, BRACKET_RIGHT, LITERAL, FLOAT, OR, COMMENT"
-                    )
+                    excepted = "BRACKET_LEFT, BRACKET_RIGHT, OR, COMMENT"
                     raise TokenTypeError(token, excepted)
 
-            current.tokens.append(token)
+        raise ValueError("Unexpected EOF")
+
+    def _parse_split(self, root: ASTNode) -> None:
+        # ALTERNATIVE | ALTERNATIVE ... )
+        while True:
+            self._parse_subtree(root)  # stops in front of `|` or `)`
+            token = cast(Token, self._consume())
+            root.tokens.append(token)
+            if token.type == TokenType.BRACKET_RIGHT:
+                return
 
     def _parse_node(self, root: ASTNode) -> ASTNode:
         # FLOAT FLOAT FLOAT FLOAT )
